@@ -54,11 +54,11 @@ pub fn property() -> Property {
                midpoint, cell centre, far point; k in 0..=n+3; radius 0 / integer / exactly the distance to a stored point / between two consecutive \
                distances / distance to a stored point or to the point of rank 0..7 moved by -3..3 ulps / beyond the diameter; k additionally 2n, 2^20, 2^40, usize::MAX/2, usize::MAX-1, usize::MAX)); \
                a large structured stratum (n 500..=2000 derived from a seed: diagonal, collinear strip, lattice, two-scale clusters; ~100 stored-point queries with radii a few ulps around the distance to a near neighbour; leaf 1/16/64); \
-               point sets a few ulps apart; random bytes through case_from_bytes; plus an exhaustive stratum of all multisets over {0..3} (1-D) and subsets of the 3x3 grid (2-D). \
+               point sets a few ulps apart; offset clouds (small integers + 2^13 (f32) / 2^27 (f64) per coordinate, dim mostly 8..=32); random bytes through case_from_bytes; plus an exhaustive stratum of all multisets over {0..3} (1-D) and subsets of the 3x3 grid (2-D). \
                Non-trivial = some query has an exact distance tie at rank k, or a stored point exactly on the radius (reduced distance bit-equal to the \
                reduced radius), or leaf size < n/4 (the trees really branch); distinct = distinct canonical JSON of the case",
         assumptions: vec![
-            "coordinates are finite with |x| <= 1e6 (NaN/infinite input is documented as unspecified); batch layouts: row-major, column-major owned, transposed view, every-second-row view, reversed-rows view; query views contiguous or strided: every answer must be right; the only accepted panic is KdTree's documented \"views should be contiguous\" when a stored row or the query really is not contiguous (LinearSearch and BallTree must answer for every layout); Lp exponents >= 1 (triangle inequality is a documented precondition)".into(),
+            "coordinates are finite with |x| <= 1e6 (f32) / 4e8 (f64) (NaN/infinite input is documented as unspecified); batch layouts: row-major, column-major owned, transposed view, every-second-row view, reversed-rows view; query views contiguous or strided: every answer must be right; the only accepted panic is KdTree's documented \"views should be contiguous\" when a stored row or the query really is not contiguous (LinearSearch and BallTree must answer for every layout); Lp exponents >= 1 (triangle inequality is a documented precondition)".into(),
             "reference = linear scan with the crate's own Distance::rdistance(query, row) in the element type; comparisons on these values are exact".into(),
             format!("k-nearest: as sorted lists the returned distances may exceed the true ones by {} eps (relative); for BallTree, and for KdTree under Lp (box bound through powf), additionally by {} (dim+8) eps M absolute, M = largest query-to-point distance (rounding of the sphere bound distance(q,centre) - radius)", oracle::BAND_EPS, oracle::GEO_EPS),
             format!("range: a point must be present if rd < r'(1 - {0} eps) (BallTree / KdTree-Lp: and distance < radius - the allowance above), must be absent if rd > r'(1 + {0} eps); rd == r' bit-for-bit: free but all three kinds must choose alike; other points in the band are free", oracle::BAND_EPS),
@@ -81,6 +81,8 @@ pub fn property() -> Property {
             prop_sub("adjacent_floats", 1500, 20000, |_t: Tier| gen::adjacent_strategy(), check_case)
                 .chunks(8)
                 .require(&["kd_degenerate_split_predicted"]),
+            // wide points far from the origin with small exact gaps (cancellation in expanded distance formulas)
+            prop_sub("offset_cloud", 8000, 80000, |_t: Tier| gen::offset_strategy(), check_case).chunks(8).require(&["dim_9to16", "exact_geometry", "metric_l2", "elem_f32"]),
             // many points: spheres whose radius is large against the query radius (cancellation in `distance - radius`)
             prop_sub("large_structured", 40, 600, |t: Tier| gen::large_strategy(t.pick(96, 128)), check_large)
                 .chunks(8)
